@@ -17,10 +17,10 @@ RULE = ("cubes with 1..k sub-cubes, both cube types; the callback raises an Exce
         "seeded line-level scheduler, real ThreadPool under a hard timeout); checked: calculate raises (one of) the raised "
         "exception object(s), returns when nothing raises, the callback is consulted at most once per sub-cube (exactly "
         "once without a raise; i+1 times in serial mode), and a following uninterrupted calculate on the SAME cube and "
-        "aggregate-function objects - serial, and again in the mode of the interrupted call with a counting callback - equals a fresh evaluation bit-for-bit and consults the callback once per sub-cube. Non-trivial = the raise happens after at least "
+        "aggregate-function objects - serial, and again in the mode of the interrupted call with a counting callback - equals a fresh evaluation bit-for-bit and consults the callback once per sub-cube; every kind of exception once per cube and mode (StopIteration and a subclass, StopAsyncIteration, LookupError, ArithmeticError, and the non-Exception ones: a BaseException subclass, GeneratorExit, asyncio.CancelledError, SystemExit), serial and through the permuting pool. Non-trivial = the raise happens after at least "
         "one completed sub-cube; distinct by (cube, mode, raising set)")
-ASSUMPTIONS = ["the interrupt is an Exception subclass (what an application-level cancellation raises); BaseException "
-               "subclasses in pooled mode are checked separately and reported as a recorded finding if they hang"]
+ASSUMPTIONS = ["exceptions raised by the callback are compared by identity; real-ThreadPool runs with non-Exception "
+               "interrupts are limited to one per run (a hang costs the 25 s timeout)"]
 
 
 class Stop(Exception):
@@ -29,6 +29,18 @@ class Stop(Exception):
 
 class HardStop(BaseException):
     pass
+
+
+class Budget(StopIteration):
+    """what `next()` on an exhausted budget iterator raises, subclassed"""
+
+
+def exception_types():
+    """exception classes an application's callback may raise: ordinary ones, the iterator-protocol ones (a budget callback
+    such as `iter(range(n)).__next__`), and the non-Exception ones that cancel (KeyboardInterrupt-like)"""
+    import asyncio
+    return [Stop, StopIteration, Budget, StopAsyncIteration, LookupError, ArithmeticError, HardStop, GeneratorExit,
+            asyncio.CancelledError, SystemExit]
 
 
 def make_callback(raising, exc_type, log):
@@ -131,6 +143,9 @@ def run(ctx):
             for i in range(nsub):                       # every cancellation point, serial
                 one_mode(ctx, kind, case, nsub, "serial", {i}, desc)
             one_mode(ctx, kind, case, nsub, "serial", set(), desc)
+            for et in exception_types()[1:]:          # every kind of exception, at a random cancellation point, serial
+                ctx.hit("exc:" + et.__name__)
+                one_mode(ctx, kind, case, nsub, "serial", {ctx.rng.randrange(nsub)}, desc, exc_type=et)
             if nsub <= 2:
                 continue                                  # pooling engages for more than two sub-cubes
             subsets = ([set(s) for r in range(0, nsub + 1) for s in itertools.combinations(range(nsub), r)]
@@ -142,6 +157,8 @@ def run(ctx):
                                        P.SeededInterleavingPool(ctx.rng.randrange(10**6), 0.2)])
                 ctx.hit("pooled:" + type(pool).__name__)
                 one_mode(ctx, kind, case, nsub, pool, sub, desc)
+            for et in exception_types()[1:]:          # ... and pooled (order-permuting pool: runs in the calling thread)
+                one_mode(ctx, kind, case, nsub, P.PermutedPool(ctx.rng.randrange(10**6)), {ctx.rng.randrange(nsub)}, desc, exc_type=et)
             # the real ThreadPool
             for sub in ([set(), {0}, {nsub - 1}, set(range(nsub))]):
                 ctx.hit("pooled:ThreadPool")
